@@ -4,6 +4,15 @@
 import json, os, subprocess, sys, glob, time
 os.environ['GLMX_EVIDENCE_DIR'] = '/verif/build/seed_evidence'   # runs against a modified tree are not evidence
 os.chdir('/verif')
+# the seeds are applied to a scratch worktree of /repo's HEAD (never to /repo itself), and the checks are pointed at it with GLMX_REPO
+SEEDREPO = os.environ.get('SEED_REPO', '/tmp/glmx_seedrepo')
+def fresh_seedrepo():
+    head = subprocess.run(['git', '-C', '/repo', 'rev-parse', 'HEAD'], capture_output=True, text=True).stdout.strip()
+    if not os.path.isdir(SEEDREPO):
+        subprocess.check_call(['git', '-C', '/repo', 'worktree', 'add', '--detach', SEEDREPO, head], stdout=subprocess.DEVNULL, stderr=subprocess.DEVNULL)
+    subprocess.check_call(['git', '-C', SEEDREPO, 'checkout', '-q', '--', '.']); subprocess.check_call(['git', '-C', SEEDREPO, 'checkout', '-q', '--detach', head])
+fresh_seedrepo()
+os.environ['GLMX_REPO'] = SEEDREPO
 only = set(sys.argv[1:])
 rows = []
 for d in sorted(glob.glob('seeded/*/')):
@@ -13,9 +22,9 @@ for d in sorted(glob.glob('seeded/*/')):
         if os.path.exists(d + 'meta.json') and meta.get('last_result'):
             rows.append((sid, prop, meta['last_result'], meta.get('caught_by', '')))
         continue
-    st = subprocess.run(['git', '-C', '/repo', 'status', '--porcelain', '--untracked-files=no'], capture_output=True, text=True).stdout.strip()
-    assert not st, '/repo has uncommitted changes'
-    a = subprocess.run(['git', '-C', '/repo', 'apply', os.path.abspath(d + 'patch.diff')], capture_output=True, text=True)
+    st = subprocess.run(['git', '-C', SEEDREPO, 'status', '--porcelain', '--untracked-files=no'], capture_output=True, text=True).stdout.strip()
+    assert not st, 'seed worktree has uncommitted changes'
+    a = subprocess.run(['git', '-C', SEEDREPO, 'apply', os.path.abspath(d + 'patch.diff')], capture_output=True, text=True)
     if a.returncode != 0:
         res, caught = 'PATCH-DOES-NOT-APPLY', a.stderr.strip()[:200]
     else:
@@ -36,10 +45,10 @@ for d in sorted(glob.glob('seeded/*/')):
                 res = {'MISSED': 'NO-ALARM (as required)', 'DETECTED': 'FALSE-ALARM'}.get(res, res)
             meta['seconds'] = round(time.time() - t, 1)
         finally:
-            subprocess.check_call(['git', '-C', '/repo', 'checkout', '--', '.'])
+            subprocess.check_call(['git', '-C', SEEDREPO, 'checkout', '--', '.'])
     meta['last_result'] = res; meta['caught_by'] = caught
     meta['detected_by'] = [caught.split(':')[0]] if res in ('DETECTED', 'FALSE-ALARM') else []
-    meta['what_was_run'] = f"git -C /repo apply seeded/{sid}/patch.diff; ./check {prop} --tier quick; git -C /repo checkout -- .   (repo HEAD {subprocess.run(['git','-C','/repo','rev-parse','--short','HEAD'],capture_output=True,text=True).stdout.strip()})"
+    meta['what_was_run'] = f"scratch worktree of /repo HEAD + git apply seeded/{sid}/patch.diff; GLMX_REPO=<worktree> ./check {prop} --tier quick   (repo HEAD {subprocess.run(['git','-C','/repo','rev-parse','--short','HEAD'],capture_output=True,text=True).stdout.strip()})"
     json.dump(meta, open(d + 'meta.json', 'w'), indent=1)
     rows.append((sid, prop, res, caught)); print(sid, res, caught[:120], flush=True)
 with open('seeded/RESULTS.md', 'w') as f:
